@@ -65,7 +65,7 @@ CLAIMED = {
  "C11": ("proof", "C11_atan for EVERY finite argument (all 2^64-3 raw values, by analytic composition, not enumeration): |atan(v) - Real.arctan| <= 5e-5, atan(-v) = -atan(v), |atan v| <= fixpidiv2; "
          "C11_atan2 for every pair with |y| < 2^31 and any finite x: within 8e-5 of the true angle in (-pi, pi], sign, axis values, origin -> NaN. Ingredients: Real.arctan_add split, |arctan a - arctan b| <= |a-b| (mean value), "
          "integer bracket of the truncated kernel argument (omega with the literal segment constants), kernel-checked enumeration (28 chunks) of the polynomial kernel at all 28 672 arguments against Real.arctan via sin/cos enclosures incl. monotone unit steps, the four segment constants, the clamp. "
-         "PARTIAL: the 2-ulp quasi-monotonicity clause is stated (C11_atan_mono2_full) and carried by correspondence (exhaustive on [0,200000] raw with running maximum + stratified) only.", "analytic composition (Mathlib arctan identities, omega, nlinarith) + kernel enumeration of the polynomial kernel; correspondence"),
+         "C11_atan_mono2 for EVERY pair of finite arguments: x <= y => atan(x) <= atan(y) + 2 (kernel argument monotone up to one unit by cross-multiplied monotonicity against the two truncations, unit steps of the kernel, kernel-evaluated segment suprema against the next segment constant, oddness).", "analytic composition (Mathlib arctan identities, omega, nlinarith) + kernel enumeration of the polynomial kernel; correspondence"),
  "C14": ("proof", "For EVERY pair with |a|,|b| < 2^31 and any square-root back-end within one unit of the true root (SqrtNear): |hypot - sqrt(a^2+b^2)| <= 2 ulp when both operands are below 16384, <= 1.5e-4 relative otherwise; exact symmetry and sign independence; never NaN or negative. "
          "Analytic proof over the integers for all inputs (three branches as inequalities between squares, shift amounts from countl_zero via Nat.log2, no enumeration), lifted to Real.sqrt. The abacus back-end satisfies SqrtNear by the loop-invariant theorem: C14_abacus is unconditional. "
          "The std::sqrt back-end satisfies SqrtNear by the rounding theory of the IEEE model (sqrtNear_std): C14_std is unconditional too. Both back-ends are tied by correspondence on boundary pairs (clz boundaries, 2^16/2^30 thresholds, random) in both builds.", "integer inequalities (omega, nlinarith) + Real.sqrt lemmas; correspondence on both back-ends"),
